@@ -25,7 +25,8 @@ def mcount (s : State) : Nat := s.retrQ.countP Job.mc + s.busy.countP Phase.mc
 
 def jobOK (c : Cfg) (g : Nat) (j : Job) : Prop :=
   j.curr ≤ (rres c j.base).e ∧ (Job.mc j = true → (rres c j.base).e = g) ∧
-  (∀ f, j.ub = some f → f.inq = true → f.complete = false)
+  (∀ f, j.ub = some f → f.inq = true → f.complete = false) ∧
+  j.base ≤ j.curr ∧ (∀ f, j.ub = some f → f.endp ≤ (rres c j.base).e)
 
 def ejOK (c : Cfg) (e : EJob) : Prop :=
   1 ≤ e.left ∧ ((rres c e.base).ok = true → e.idx + e.left = (rres c e.base).nb ∧ e.ok = (rres c e.base).fin)
@@ -43,8 +44,13 @@ def phaseOK (c : Cfg) (g : Nat) : Phase → Prop
   | .emit e => ejOK c e
   | .scan _ _ => True
 
-def ubOK (c : Cfg) (u : UB) : Prop :=
-  u.f.inq = true → u.f.complete = true → u.f.endp = (rres c u.base).e
+/-- a complete entry of unord_q either belongs to a block that really was
+    retrieved to its end, or was left behind by `discard()` for a job that the
+    master had overtaken — then it lies behind `head_offs` and the parser can
+    never arrive exactly at it -/
+def ubOK (c : Cfg) (s : State) (u : UB) : Prop :=
+  u.f.complete = true ∧
+  (u.f.inq = true → u.f.endp = (rres c u.base).e ∨ u.base < headOffs c s)
 
 /-- the safety invariant (for states in which `failf` has not been called) -/
 structure SI (c : Cfg) (s : State) : Prop where
@@ -58,8 +64,9 @@ structure SI (c : Cfg) (s : State) : Prop where
   busy : ∀ ph ∈ s.busy, phaseOK c s.gnext ph
   emits : ∀ e ∈ s.emitQ, ejOK c e
   obs : ∀ o ∈ s.reordQ, obOK c o
-  orph : ∀ u ∈ s.orphans, ubOK c u
+  orph : s.pdone = false → ∀ u ∈ s.orphans, ubOK c s u
   pd : s.pphase.isSome = true → s.pdone = false
+  hb : s.pdone = false → ∀ b, pres c s.gnext = .hdr b → headOffs c s ≤ b
 
 /-- the process failed: the sequential decoding fails too, and what reached
     the sink is a prefix of what the sequential decoding writes -/
@@ -108,18 +115,19 @@ theorem mem_replaceFirst {α} (q : α → Bool) (g : α → α) {l : List α} {y
 /-! ### the initial state -/
 
 theorem SI_init (c : Cfg) : SI c (init c) := by
-  refine ⟨?_, ?_, ?_, ?_, ?_, ?_, ?_, ?_, ?_, ?_, ?_, ?_⟩ <;>
-    simp [init, expect, future, orderOut, seqRun, mcount]
+  refine ⟨?_, ?_, ?_, ?_, ?_, ?_, ?_, ?_, ?_, ?_, ?_, ?_, ?_⟩ <;>
+    simp [init, expect, future, orderOut, seqRun, mcount, headOffs, offs]
 
 /-- `SI` only reads these fields -/
 theorem SI_congr {c : Cfg} {s s' : State} (h : SI c s)
     (e1 : s'.written = s.written) (e2 : s'.orderQ = s.orderQ) (e3 : s'.pdone = s.pdone)
     (e4 : s'.gnext = s.gnext) (e5 : s'.ptok = s.ptok) (e6 : s'.pphase = s.pphase)
     (e7 : s'.porig = s.porig) (e8 : s'.retrQ = s.retrQ) (e9 : s'.busy = s.busy)
-    (e10 : s'.emitQ = s.emitQ) (e11 : s'.reordQ = s.reordQ) (e12 : s'.orphans = s.orphans) :
+    (e10 : s'.emitQ = s.emitQ) (e11 : s'.reordQ = s.reordQ) (e12 : s'.orphans = s.orphans)
+    (e13 : s'.head = s.head) :
     SI c s' := by
-  obtain ⟨a1, a2, a3, a4, a5, a6, a7, a8, a9, a10, a11, a12⟩ := h
-  refine ⟨?_, ?_, ?_, ?_, ?_, ?_, ?_, ?_, ?_, ?_, ?_, ?_⟩
+  obtain ⟨a1, a2, a3, a4, a5, a6, a7, a8, a9, a10, a11, a12, a13⟩ := h
+  refine ⟨?_, ?_, ?_, ?_, ?_, ?_, ?_, ?_, ?_, ?_, ?_, ?_, ?_⟩
   · simpa [expect, future, e1, e2, e3, e4] using a1
   · simpa [e4] using a2
   · simpa [e4, e5, e6, e7] using a3
@@ -130,43 +138,44 @@ theorem SI_congr {c : Cfg} {s s' : State} (h : SI c s)
   · simpa [e4, e9] using a8
   · simpa [e10] using a9
   · simpa [e11] using a10
-  · simpa [e12] using a11
+  · simpa [e12, e3, ubOK, headOffs, e13] using a11
   · simpa [e3, e6] using a12
+  · simpa [e3, e4, headOffs, e13] using a13
 
 
 /-! ### steps that do not touch what `SI` reads -/
 
 theorem SI_rTake {c : Cfg} {s s' : State} (h : SI c s) (hs : stepRTake s = some s') : SI c s' ∧ s'.failed = s.failed := by
   unfold stepRTake at hs; split at hs <;> simp at hs; subst hs
-  exact ⟨SI_congr h rfl rfl rfl rfl rfl rfl rfl rfl rfl rfl rfl rfl, rfl⟩
+  exact ⟨SI_congr h rfl rfl rfl rfl rfl rfl rfl rfl rfl rfl rfl rfl rfl, rfl⟩
 
 theorem SI_rQuit {c : Cfg} {s s' : State} (h : SI c s) (hs : stepRQuit s = some s') : SI c s' ∧ s'.failed = s.failed := by
   unfold stepRQuit at hs; split at hs <;> simp at hs; subst hs
-  exact ⟨SI_congr h rfl rfl rfl rfl rfl rfl rfl rfl rfl rfl rfl rfl, rfl⟩
+  exact ⟨SI_congr h rfl rfl rfl rfl rfl rfl rfl rfl rfl rfl rfl rfl rfl, rfl⟩
 
 theorem SI_rBlock {c : Cfg} {s s' : State} (h : SI c s) (hs : stepRBlock c s = some s') : SI c s' ∧ s'.failed = s.failed := by
   unfold stepRBlock at hs; split at hs
   · dsimp only at hs; split at hs <;> simp at hs <;> subst hs <;>
-      exact ⟨SI_congr h rfl rfl rfl rfl rfl rfl rfl rfl rfl rfl rfl rfl, rfl⟩
+      exact ⟨SI_congr h rfl rfl rfl rfl rfl rfl rfl rfl rfl rfl rfl rfl rfl, rfl⟩
   · simp at hs
 
 theorem SI_rEmpty {c : Cfg} {s s' : State} (h : SI c s) (hs : stepREmpty c s = some s') : SI c s' ∧ s'.failed = s.failed := by
   unfold stepREmpty at hs; split at hs <;> simp at hs; subst hs
-  exact ⟨SI_congr h rfl rfl rfl rfl rfl rfl rfl rfl rfl rfl rfl rfl, rfl⟩
+  exact ⟨SI_congr h rfl rfl rfl rfl rfl rfl rfl rfl rfl rfl rfl rfl rfl, rfl⟩
 
 theorem SI_rEof {c : Cfg} {s s' : State} (h : SI c s) (hs : stepREof s = some s') : SI c s' ∧ s'.failed = s.failed := by
   unfold stepREof at hs; split at hs <;> simp at hs; subst hs
-  exact ⟨SI_congr h rfl rfl rfl rfl rfl rfl rfl rfl rfl rfl rfl rfl, rfl⟩
+  exact ⟨SI_congr h rfl rfl rfl rfl rfl rfl rfl rfl rfl rfl rfl rfl rfl, rfl⟩
 
 theorem SI_wDone {c : Cfg} {s s' : State} (h : SI c s) (hs : stepWDone s = some s') : SI c s' ∧ s'.failed = s.failed := by
   unfold stepWDone at hs; split at hs <;> simp at hs; subst hs
-  exact ⟨SI_congr h rfl rfl rfl rfl rfl rfl rfl rfl rfl rfl rfl rfl, rfl⟩
+  exact ⟨SI_congr h rfl rfl rfl rfl rfl rfl rfl rfl rfl rfl rfl rfl rfl, rfl⟩
 
 theorem SI_detach {c : Cfg} {s : State} (k : Option Nat) (h : SI c s) : SI c (detach s k) := by
   unfold detach; split
   · exact h
   · split
-    · exact SI_congr h rfl rfl rfl rfl rfl rfl rfl rfl rfl rfl rfl rfl
+    · exact SI_congr h rfl rfl rfl rfl rfl rfl rfl rfl rfl rfl rfl rfl rfl
     · exact h
 
 /-! ### parseStart -/
@@ -186,8 +195,8 @@ theorem SI_parseStart {c : Cfg} {s s' : State} (h : SI c s) (hs : stepParseStart
     have ht := (select_parse hsel).1
     have hd := (select_parse hsel).2
     simp at hs; subst hs
-    obtain ⟨a1, a2, a3, a4, a5, a6, a7, a8, a9, a10, a11, a12⟩ := h
-    refine ⟨⟨a1, a2, ?_, ?_, a5, ?_, a7, a8, a9, a10, a11, ?_⟩, rfl⟩
+    obtain ⟨a1, a2, a3, a4, a5, a6, a7, a8, a9, a10, a11, a12, a13⟩ := h
+    refine ⟨⟨a1, a2, ?_, ?_, a5, ?_, a7, a8, a9, a10, a11, ?_, a13⟩, rfl⟩
     · intro _; exact a3 (Or.inl ht)
     · intro hh; simp at hh
     · intro _; exact a6 (Or.inl ht)
@@ -214,8 +223,8 @@ theorem SI_retrStart {c : Cfg} {s s' : State} {j : Job} (h : SI c s)
     simp only [Bool.and_eq_true, List.contains_iff_mem] at hg
     have hj : j ∈ s.retrQ := hg.1.2
     simp only [Option.some.injEq] at hs; subst hs
-    obtain ⟨a1, a2, a3, a4, a5, a6, a7, a8, a9, a10, a11, a12⟩ := h
-    refine ⟨⟨a1, a2, a3, a4, ?_, ?_, ?_, ?_, a9, a10, a11, a12⟩, rfl⟩
+    obtain ⟨a1, a2, a3, a4, a5, a6, a7, a8, a9, a10, a11, a12, a13⟩ := h
+    refine ⟨⟨a1, a2, a3, a4, ?_, ?_, ?_, ?_, a9, a10, a11, a12, a13⟩, rfl⟩
     · rw [mcount_retrStart hj]
       · exact a5
       · rfl
@@ -236,12 +245,12 @@ theorem SI_retrPost {c : Cfg} {s s' : State} {e : EJob} (h : SI c s)
   · next hg =>
     have hm : Phase.retr2 e ∈ s.busy := by simpa using hg
     simp at hs; subst hs
-    obtain ⟨a1, a2, a3, a4, a5, a6, a7, a8, a9, a10, a11, a12⟩ := h
+    obtain ⟨a1, a2, a3, a4, a5, a6, a7, a8, a9, a10, a11, a12, a13⟩ := h
     have hc : mcount { s with busy := s.busy.erase (.retr2 e), emitQ := e :: s.emitQ } ≤ mcount s := by
       simp only [mcount]
       have := countP_erase_le Phase.mc (.retr2 e) s.busy
       omega
-    refine ⟨⟨a1, a2, a3, a4, Nat.le_trans hc a5, ?_, a7, ?_, ?_, a10, a11, a12⟩, rfl⟩
+    refine ⟨⟨a1, a2, a3, a4, Nat.le_trans hc a5, ?_, a7, ?_, ?_, a10, a11, a12, a13⟩, rfl⟩
     · intro hh; have := a6 hh; omega
     · intro ph hph; exact a8 ph (List.mem_of_mem_erase hph)
     · intro x hx
@@ -257,11 +266,11 @@ theorem SI_emitStart {c : Cfg} {s s' : State} {e : EJob} (h : SI c s)
     simp only [Bool.and_eq_true, List.contains_iff_mem] at hg
     have hm : e ∈ s.emitQ := hg.1.2
     simp at hs; subst hs
-    obtain ⟨a1, a2, a3, a4, a5, a6, a7, a8, a9, a10, a11, a12⟩ := h
+    obtain ⟨a1, a2, a3, a4, a5, a6, a7, a8, a9, a10, a11, a12, a13⟩ := h
     have hc : mcount { s with outSlots := s.outSlots - 1, emitQ := s.emitQ.erase e,
                               busy := .emit e :: s.busy } = mcount s := by
       simp [mcount, List.countP_cons, Phase.mc]
-    refine ⟨⟨a1, a2, a3, a4, ?_, ?_, a7, ?_, ?_, a10, a11, a12⟩, rfl⟩
+    refine ⟨⟨a1, a2, a3, a4, ?_, ?_, a7, ?_, ?_, a10, a11, a12, a13⟩, rfl⟩
     · rw [hc]; exact a5
     · intro hh; rw [hc]; exact a6 hh
     · intro ph hph
@@ -276,7 +285,7 @@ theorem SI_emitEnd {c : Cfg} {s s' : State} {e : EJob} (h : SI c s)
   unfold stepEmitEnd at hs; split at hs
   · next hg =>
     have hm : Phase.emit e ∈ s.busy := by simpa using hg
-    obtain ⟨a1, a2, a3, a4, a5, a6, a7, a8, a9, a10, a11, a12⟩ := h
+    obtain ⟨a1, a2, a3, a4, a5, a6, a7, a8, a9, a10, a11, a12, a13⟩ := h
     have he : ejOK c e := a8 _ hm
     have hcnt : List.countP Phase.mc (s.busy.erase (.emit e)) ≤ List.countP Phase.mc s.busy :=
       countP_erase_le _ _ _
@@ -285,7 +294,7 @@ theorem SI_emitEnd {c : Cfg} {s s' : State} {e : EJob} (h : SI c s)
     split at hs
     · next hl =>
       simp at hs; subst hs
-      refine ⟨⟨a1, a2, a3, a4, ?_, ?_, a7, ?_, ?_, ?_, a11, a12⟩, rfl⟩
+      refine ⟨⟨a1, a2, a3, a4, ?_, ?_, a7, ?_, ?_, ?_, a11, a12, a13⟩, rfl⟩
       · simp only [mcount] at a5 ⊢; omega
       · intro hh; have := a6 hh; simp only [mcount] at this ⊢; omega
       · intro ph hph; exact a8 ph (List.mem_of_mem_erase hph)
@@ -306,7 +315,7 @@ theorem SI_emitEnd {c : Cfg} {s s' : State} {e : EJob} (h : SI c s)
     · next hl =>
       simp at hs; subst hs
       have hl1 : e.left = 1 := by omega
-      refine ⟨⟨a1, a2, a3, a4, ?_, ?_, a7, ?_, a9, ?_, a11, a12⟩, rfl⟩
+      refine ⟨⟨a1, a2, a3, a4, ?_, ?_, a7, ?_, a9, ?_, a11, a12, a13⟩, rfl⟩
       · simp only [mcount] at a5 ⊢; omega
       · intro hh; have := a6 hh; simp only [mcount] at this ⊢; omega
       · intro ph hph; exact a8 ph (List.mem_of_mem_erase hph)
@@ -329,8 +338,8 @@ theorem SI_scanStart {c : Cfg} {s s' : State} {sp : Nat} (h : SI c s)
     (hs : stepScanStart c s sp = some s') : SI c s' ∧ s'.failed = s.failed := by
   unfold stepScanStart at hs; split at hs
   · simp at hs; subst hs
-    obtain ⟨a1, a2, a3, a4, a5, a6, a7, a8, a9, a10, a11, a12⟩ := h
-    refine ⟨⟨a1, a2, a3, a4, ?_, ?_, a7, ?_, a9, a10, a11, a12⟩, rfl⟩
+    obtain ⟨a1, a2, a3, a4, a5, a6, a7, a8, a9, a10, a11, a12, a13⟩ := h
+    refine ⟨⟨a1, a2, a3, a4, ?_, ?_, a7, ?_, a9, a10, a11, a12, a13⟩, rfl⟩
     · simpa [mcount, List.countP_cons, Phase.mc] using a5
     · intro hh; simpa [mcount, List.countP_cons, Phase.mc] using a6 hh
     · intro ph hph
@@ -392,14 +401,14 @@ theorem Good_reorder {c : Cfg} {s s' : State} {ob : OB} (h : SI c s) (hf : s.fai
   · next hg =>
     simp only [Bool.and_eq_true, List.contains_iff_mem, beq_iff_eq] at hg
     obtain ⟨⟨⟨_, hsel⟩, hmem⟩, hmin⟩ := hg
-    obtain ⟨a1, a2, a3, a4, a5, a6, a7, a8, a9, a10, a11, a12⟩ := h
+    obtain ⟨a1, a2, a3, a4, a5, a6, a7, a8, a9, a10, a11, a12, a13⟩ := h
     have hob := a10 ob hmem
     split at hs
     · -- bogus: dropped without reaching the sink
       simp only [Option.some.injEq] at hs; subst hs
       simp only [Good, hf]
       exact ⟨a1, a2, a3, a4, a5, a6, a7, a8, a9,
-        fun o ho => a10 o (List.mem_of_mem_erase ho), a11, a12⟩
+        fun o ho => a10 o (List.mem_of_mem_erase ho), a11, a12, a13⟩
     · next hb =>
       have hb' : dReorderBogus (view c s) = false := by simpa using hb
       obtain ⟨r, hr⟩ := reorder_head hsel hmin hb'
@@ -422,7 +431,7 @@ theorem Good_reorder {c : Cfg} {s s' : State} {ob : OB} (h : SI c s) (hf : s.fai
           simpa [obOK, hst] using hob
         have hbo := blockOut_more hob'.1 hob'.2
         refine ⟨?_, a2, a3, a4, a5, a6, a7, a8, a9,
-          fun o ho => a10 o (List.mem_of_mem_erase ho), a11, a12⟩
+          fun o ho => a10 o (List.mem_of_mem_erase ho), a11, a12, a13⟩
         simp only [expect, hr, future, OB.key] at hm ⊢
         rw [hm]
         simp only [orderOut, hbo]
@@ -434,7 +443,7 @@ theorem Good_reorder {c : Cfg} {s s' : State} {ob : OB} (h : SI c s) (hf : s.fai
             ob.idx + 1 = (rres c ob.base).nb := by simpa [obOK, hst] using hob
         have hbo := blockOut_ok hob'.1 hob'.2.1 hob'.2.2
         refine ⟨?_, a2, a3, a4, a5, a6, a7, a8, a9,
-          fun o ho => a10 o (List.mem_of_mem_erase ho), a11, a12⟩
+          fun o ho => a10 o (List.mem_of_mem_erase ho), a11, a12, a13⟩
         simp only [expect, hr, future, OB.key, List.tail_cons] at hm ⊢
         rw [hm]
         simp only [orderOut, hbo]
